@@ -9,6 +9,7 @@ import (
 	"errors"
 	"fmt"
 	"io"
+	"net"
 	"runtime"
 	"strings"
 	"sync"
@@ -237,6 +238,8 @@ type Conn struct {
 	SlowReturn  int   // Write yields/sleeps after the peer processed the bytes and before returning
 	LateWriteOK bool  // writes after the peer closed succeed and are discarded (default: fail)
 	WriteErr    error // error returned by failing writes (default io.ErrClosedPipe)
+	ClosedErr   error // error returned by Read/Write/Close after the library closed the connection (default ErrClosed; real transports: io.ErrClosedPipe for net.Pipe, a *net.OpError wrapping net.ErrClosed for TCP)
+	CloseLinger int   // Close returns late: the connection is closed and its reader woken, then Close sleeps this many 100 µs slices before it returns
 
 	cond        *sync.Cond
 	rbuf        []byte
@@ -314,7 +317,7 @@ func (c *Conn) write(b []byte) (int, error) {
 	if c.LocalClosed || (c.PeerClosed && !c.LateWriteOK) {
 		c.recordAttempt(b, false, g, "closed")
 		if c.LocalClosed {
-			return 0, ErrClosed
+			return 0, c.closedErr()
 		}
 		return 0, werr
 	}
@@ -404,7 +407,7 @@ func (c *Conn) Read(p []byte) (int, error) {
 	}
 	c.Parked = false
 	if c.LocalClosed {
-		return 0, ErrClosed
+		return 0, c.closedErr()
 	}
 	if len(c.rbuf) == 0 {
 		return 0, io.EOF
@@ -431,19 +434,34 @@ func (c *Conn) Read(p []byte) (int, error) {
 func (c *Conn) Close() error {
 	tr := c.Tr
 	tr.Mu.Lock()
-	defer tr.Mu.Unlock()
 	c.Closes++
 	tr.AddLocked(Event{Kind: KClose, Conn: c.ID, N: c.Closes})
 	if c.LocalClosed {
-		return ErrClosed
+		tr.Mu.Unlock()
+		return c.closedErr()
 	}
 	c.LocalClosed = true
 	c.cond.Broadcast()
 	if c.Peer != nil {
 		c.Peer.OnClientClose(c)
 	}
+	linger := c.CloseLinger
+	tr.Mu.Unlock()
+	for i := 0; i < linger; i++ {
+		time.Sleep(100 * time.Microsecond)
+	}
 	return nil
 }
+
+func (c *Conn) closedErr() error {
+	if c.ClosedErr != nil {
+		return c.ClosedErr
+	}
+	return ErrClosed
+}
+
+// NetClosedErr is what a TCP connection returns after a local Close.
+var NetClosedErr error = &net.OpError{Op: "read", Net: "tcp", Err: net.ErrClosed}
 
 // SendLocked queues broker->client bytes forming one packet (or arbitrary bytes
 // when pkt is nil); Mu must be held. tag is stored in the event.
